@@ -176,14 +176,13 @@ def case_term(codes, case, obs):
                         dsn = pp.pop("http://data.mimiro.io/core/datasetname", None)
                         pe["props"] = pp
                         parts.append("(%d, %s)" % (ds_code(case, dsn), content_term(codes, pe, ns, 0)))
-                elif (e.get("props") or e.get("refs")) and not e.get("deleted"):
+                elif e.get("props") or e.get("refs"):
                     # merged body: attributed to the single dataset in scope if there is exactly one
                     dsn = op["datasets"][0] if len(op.get("datasets", [])) == 1 else None
                     parts.append("(%d, %s)" % (ds_code(case, dsn) if dsn else 0, content_term(codes, e, ns, 0)))
+                    deleted = bool(e.get("deleted"))
                 else:
                     deleted = bool(e.get("deleted"))
-                    if not deleted and not op.get("merge") is False:
-                        pass
             terms.append("SGet %d %s %s %s %s %s %s" % (codes.ucode(expand(op["id"])), at, scope, vlib.coq_bool(op.get("merge", False)),
                                                       vlib.coq_bool(found), vlib.coq_list(parts), vlib.coq_bool(deleted)))
         else:
